@@ -120,10 +120,12 @@ theorem tdea_roundtrip_call (K1 : List Nat) (K2 K3 : Option (List Nat)) (t : TDE
   obtain ⟨P, p1, _, _, p4⟩ := tdea_enc_dec t M hM hb
   simp [Des.tdeaEnc, Des.tdeaDec, ht, c1, c4, p1, p4, bind, Except.bind]
 
-/-- non-vacuity: a weak key and the zero block satisfy the hypotheses, and the model really computes there
-    (published value 8CA64DE9C1B123A7) -/
-example : (Des.enc [1,1,1,1,1,1,1,1] [0,0,0,0,0,0,0,0]).toOption = some [0x8c,0xa6,0x4d,0xe9,0xc1,0xb1,0x23,0xa7]
-    ∧ (Des.dec [1,1,1,1,1,1,1,1] [0x8c,0xa6,0x4d,0xe9,0xc1,0xb1,0x23,0xa7]).toOption = some [0,0,0,0,0,0,0,0] := by
+/-- non-vacuity: a weak key and the zero block satisfy the hypotheses and the model really runs there (the round
+    trips evaluated in the kernel; deliberately no ciphertext value here: C03 must not depend on any S-box entry) -/
+example : (Des.enc [1,1,1,1,1,1,1,1] [0,0,0,0,0,0,0,0] >>= Des.dec [1,1,1,1,1,1,1,1]).toOption = some [0,0,0,0,0,0,0,0]
+    ∧ (Des.tdeaDec [1,2,3,4,5,6,7,8,9,10,11,12,13,14,15,16,17,18,19,20,21,22,23,24] none none [255,0,1,2,3,4,5,6]
+        >>= Des.tdeaEnc [1,2,3,4,5,6,7,8,9,10,11,12,13,14,15,16,17,18,19,20,21,22,23,24] none none).toOption
+        = some [255,0,1,2,3,4,5,6] := by
   decide +kernel
 
 end Proofs.C03_Des
